@@ -24,7 +24,8 @@ SPACES = {
     "quick": [dict(nv=3, maxl=2, classes=("D", "U", "Ds", "Us")),
               dict(nv=3, maxl=3, minl=3, classes=("D", "U", "Ds")),
               # four members, four links (diamonds, squares, ...): pairs i < j only
-              dict(nv=4, maxl=4, minl=4, classes=("D",), pairs="upper", self_loops=False)],
+              dict(nv=4, maxl=4, minl=4, classes=("D",), pairs="upper", self_loops=False),
+              dict(nv=3, maxl=2, classes=("D", "U"), twin=True)],      # the last vertex carries the first one's uid
     "thorough": [dict(nv=3, maxl=3, classes=("D", "U", "Ds")),
                  dict(nv=3, maxl=2, classes=("D", "U", "Ds", "Us", "O")),
                  dict(nv=4, maxl=2, classes=("D", "Us")),
